@@ -473,6 +473,72 @@ func Vars(t *Term, into map[string]uint8, seen map[*Term]bool) {
 	}
 }
 
+// Size returns the number of nodes of t counted as a tree, capped at limit.
+func Size(t *Term, limit int) int {
+	n := 1
+	for _, a := range t.Args {
+		n += Size(a, limit-n)
+		if n >= limit {
+			return limit
+		}
+	}
+	return n
+}
+
+// EvalTree evaluates a small term without a memo table.
+func EvalTree(t *Term, model map[string]uint64) uint64 {
+	switch t.Op {
+	case OpConst:
+		return t.Val
+	case OpVar:
+		r := model[t.Name] & mask(maxw(t.W))
+		if t.W == 0 && r != 0 {
+			r = 1
+		}
+		return r
+	case OpNot:
+		return 1 - EvalTree(t.Args[0], model)
+	case OpAnd:
+		if EvalTree(t.Args[0], model) != 0 && EvalTree(t.Args[1], model) != 0 {
+			return 1
+		}
+		return 0
+	case OpOr:
+		if EvalTree(t.Args[0], model) != 0 || EvalTree(t.Args[1], model) != 0 {
+			return 1
+		}
+		return 0
+	case OpIte:
+		if EvalTree(t.Args[0], model) != 0 {
+			return EvalTree(t.Args[1], model)
+		}
+		return EvalTree(t.Args[2], model)
+	case OpEq:
+		if EvalTree(t.Args[0], model) == EvalTree(t.Args[1], model) {
+			return 1
+		}
+		return 0
+	case OpBNot:
+		return ^EvalTree(t.Args[0], model) & mask(t.W)
+	case OpNeg:
+		return -EvalTree(t.Args[0], model) & mask(t.W)
+	case OpExtract:
+		lo := uint8(t.Val & 0xff)
+		return (EvalTree(t.Args[0], model) >> lo) & mask(t.W)
+	case OpZext:
+		return EvalTree(t.Args[0], model)
+	case OpSext:
+		return uint64(sext64(EvalTree(t.Args[0], model), t.Args[0].W)) & mask(t.W)
+	case OpConcat:
+		return EvalTree(t.Args[0], model)<<t.Args[1].W | EvalTree(t.Args[1], model)
+	}
+	v, ok := evalBin(t.Op, t.Args[0].W, EvalTree(t.Args[0], model), EvalTree(t.Args[1], model))
+	if !ok {
+		panic("smt.EvalTree: unknown op")
+	}
+	return v
+}
+
 // Eval evaluates t under the model (missing variables are 0).
 func Eval(t *Term, model map[string]uint64, memo map[*Term]uint64) uint64 {
 	if t.Op == OpConst {
